@@ -55,7 +55,7 @@ Proof.
   intros e fl. exists (keys_msg e). unfold has_msg. split; [apply in_expand_head; cbn; auto|].
   cbn [keys_msg m_name m_psm m_oneof m_fields]. rewrite cn_keys. repeat split.
   apply (Forall2_map_r _ (fun k => of_ufield (k_def k))). intros k _.
-  unfold key_name, key_primary, of_ufield. destruct (uf_kind (k_def k)) as [pt j|n|n|n|p fo te|tn j|i|i|sfs|sfs|os];
+  unfold key_name, key_primary, of_ufield. destruct (uf_kind (k_def k)) as [pt j|n|n|n|p fo te|tn j|i|i|sfs|sfs|os|tk tfs];
     cbn [f_json f_primary f_required]; repeat split; try discriminate; auto.
   - intros ->. reflexivity.
   - intros ->. apply orb_true_r.
@@ -66,7 +66,7 @@ Proof.
   intros e fl. exists (data_msg e). unfold has_msg. split; [apply in_expand_head; cbn; auto|].
   cbn [data_msg m_name m_psm m_oneof m_fields]. rewrite cn_data. repeat split.
   apply Forall2_map_r. intros u _. unfold of_ufield.
-  destruct (uf_kind u) as [pt j|n|n|n|p fo te|tn j|i|i|sfs|sfs|os]; cbn [f_json f_required]; split; try reflexivity; auto.
+  destruct (uf_kind u) as [pt j|n|n|n|p fo te|tn j|i|i|sfs|sfs|os|tk tfs]; cbn [f_json f_required]; split; try reflexivity; auto.
   intros ->. reflexivity.
 Qed.
 
@@ -836,6 +836,7 @@ Lemma reserved_free_parts : forall e, reserved_free e = true ->
        && bytes_eqb (response_name e) (bs "events")) = false
   /\ forallb (fun u => match uf_kind u with
                         | KInlineOneof opts => forallb (fun o => negb (bytes_eqb (to_snake (sf_name o)) (bs "type"))) opts
+                        | KInlineTree k fs => tree_type_free k fs
                         | _ => true end) (all_ufields e) = true.
 Proof.
   intros e H. unfold reserved_free in H.
